@@ -133,6 +133,16 @@ def startCalls (ms : List Mod) : List (Mod × Nat) :=
 /-- `SimLifecycle::at_sim_end`: every module of the vector, in order -/
 def endCalls (ms : List Mod) : List Mod := ms
 
+/-- the errors collected by the `at_sim_end` loop,
+    `for module in mods { let _ = module.at_sim_end().map_err(|e| error.merge(e)); … }`:
+    every module is called whatever the earlier results were (`endCalls`), and the errors of all
+    modules are merged in call order; `fails m` is the number of errors `m`'s callback returns -/
+def endErrors (fails : Mod → Nat) (ms : List Mod) : List (Mod × Nat) :=
+  ms.flatMap (fun m => (List.range (fails m)).map (fun i => (m, i)))
+
+/-- `SimLifecycle::at_sim_end` returns `Ok(())` iff nothing was collected -/
+def endOk (fails : Mod → Nat) (ms : List Mod) : Bool := (endErrors fails ms).isEmpty
+
 /-! ### tear-down of the module tree (drop of `Sim` → `Globals` → `ModuleTree.modules`)
 
 A `ModuleRef` is a pair of `Arc`s (`ctx`, `processing`); its clones live in the module vector and in
